@@ -50,6 +50,10 @@ type Scn struct {
 
 const ppHeader = "PROXY TCP4 198.51.100.1 203.0.113.2 1111 2222\r\n"
 
+// the address-less v1 header (stage "ppu"): the handler keeps the socket's addresses, on a
+// code path of its own
+const ppuHeader = "PROXY UNKNOWN\r\n"
+
 func payload(n int) []byte {
 	p := make([]byte, n)
 	for i := range p {
@@ -104,7 +108,7 @@ func stageHandlers(st string) []map[string]any {
 
 func stageHandler(st string) map[string]any {
 	switch st {
-	case "pp":
+	case "pp", "ppu":
 		return map[string]any{"handler": "proxy_protocol"}
 	case "tls":
 		return map[string]any{"handler": "h_tls"}
@@ -209,11 +213,15 @@ func execute(x *explore.Exec, sc *Scn, b *built, rep *runner.Report) {
 		switch st {
 		case "tls":
 			seenTLS = true
-		case "pp":
+		case "pp", "ppu":
+			h := ppHeader
+			if st == "ppu" {
+				h = ppuHeader
+			}
 			if seenTLS {
-				inner = append(inner, ppHeader...)
+				inner = append(inner, h...)
 			} else {
-				outer = append(outer, ppHeader...)
+				outer = append(outer, h...)
 			}
 		}
 	}
@@ -431,7 +439,7 @@ func scenarios(tier string, yield func(any) bool) {
 		lens = append([]int{2, 3, 4, 5, 6, 7, 9, 11, 12}, lens...)
 	}
 	tlsLens := []int{0, 1, c + 1, M + 1, 3 * M}
-	prefixes := [][]string{{}, {"pp"}, {"tls"}, {"pp", "tls"}, {"tls", "pp"}}
+	prefixes := [][]string{{}, {"pp"}, {"tls"}, {"pp", "tls"}, {"tls", "pp"}, {"ppu"}, {"tls", "ppu"}}
 	mids := [][]string{{}, {"thr"}, {"tee"}, {"sub"}, {"c3"},
 		{"thr", "tee"}, {"c3", "tee"}, {"tee", "c3"}, {"sub", "c3"}, {"c3", "sub"}, {"thr", "sub"}, {"sub", "tee"}, {"tee", "sub"},
 		{"thr", "c3", "tee"}, {"c3", "sub", "tee"}, {"thr", "tee", "sub", "c3"}}
@@ -508,7 +516,7 @@ func bounds(tier string, sc *Scn) explore.Bounds {
 	}
 	if scaled && !has(sc, "tls") {
 		b[explore.KRead] = 2
-		if sc.PLen+len(ppHeader) <= 12 || (sc.PLen <= 12 && !has(sc, "pp")) {
+		if sc.PLen+len(ppHeader) <= 12 || (sc.PLen <= 12 && !has(sc, "pp") && !has(sc, "ppu")) {
 			b[explore.KRead] = explore.Unbounded
 		}
 		if tier == "thorough" {
